@@ -276,7 +276,7 @@ type c03Stats struct {
 	updates atomic.Int64
 }
 
-func (l *c03Stats) Update(*stats.Entry)                                   { l.updates.Add(1) }
+func (l *c03Stats) Update(*stats.Entry)                               { l.updates.Add(1) }
 func (l *c03Stats) ShouldCount(string, uint16, uint16, []string) bool { return true }
 
 // ---- full contexts: what HandleBefore reads from a proxy.DNSContext
@@ -479,7 +479,8 @@ func TestVerifC03(t *testing.T) {
 		if err != nil {
 			t.Fatalf("newAccessCtx(%q, %q): %v", allowed, blocked, err)
 		}
-		s := &Server{access: a}
+		s := &Server{}
+		s.access.Store(a)
 		got, rule := s.IsBlockedClient(ip, id)
 		list := blocked
 		if len(allowed) > 0 {
@@ -669,9 +670,9 @@ func TestVerifC03(t *testing.T) {
 		s := &Server{
 			conf:          ServerConfig{TLSConf: &TLSConfig{ServerName: c03SrvName, StrictSNICheck: strict}},
 			baseLogger:    slogutil.NewDiscardLogger(),
-			access:        a,
 			clientIDCache: cache.New(cache.Config{EnableLRU: true, MaxCount: 16}),
 		}
+		s.access.Store(a)
 		pctx := &proxy.DNSContext{Proto: proto, Req: req, RequestID: reqID, Addr: netip.AddrPortFrom(addr, 5353)}
 		switch proto {
 		case proxy.ProtoHTTPS:
@@ -820,9 +821,9 @@ func TestVerifC03(t *testing.T) {
 		s := &Server{
 			conf:          ServerConfig{TLSConf: &TLSConfig{ServerName: srv, StrictSNICheck: strict}},
 			baseLogger:    slogutil.NewDiscardLogger(),
-			access:        a,
 			clientIDCache: cache.New(cache.Config{EnableLRU: true, MaxCount: 16}),
 		}
+		s.access.Store(a)
 		herr := s.HandleBefore(nil, x.pctx())
 		var key [8]byte
 		binary.BigEndian.PutUint64(key[:], x.RID)
@@ -1032,7 +1033,7 @@ func TestVerifC03(t *testing.T) {
 		if err != nil {
 			t.Fatalf("newAccessCtx: %v", err)
 		}
-		hs.access = a
+		hs.access.Store(a)
 		hs.clientIDCache = cache.New(cache.Config{EnableLRU: true, MaxCount: capN})
 		hs.conf.TLSConf = &TLSConfig{ServerName: srv, StrictSNICheck: strict}
 
@@ -1229,7 +1230,8 @@ func TestVerifC03(t *testing.T) {
 			t.Fatalf("newAccessCtx: %v", err)
 		}
 		ownCache.Clear()
-		hs.access, hs.clientIDCache = a, ownCache
+		hs.access.Store(a)
+		hs.clientIDCache = ownCache
 		hs.conf.TLSConf = &TLSConfig{ServerName: c03SrvName}
 		_ = hs.HandleBefore(nil, dot("kid", "10.0.0.1", 1).pctx())
 		for i := 0; i < n; i++ {
@@ -1241,7 +1243,7 @@ func TestVerifC03(t *testing.T) {
 			Nontrivial: true,
 			Classes:    []string{"own-cache-within-window"},
 			MonitorOK:  true,
-			Desc: map[string]any{"cache_capacity": defaultClientIDCacheCount, "interleaved_admitted_requests": n, "clientid_read": read},
+			Desc:       map[string]any{"cache_capacity": defaultClientIDCacheCount, "interleaved_admitted_requests": n, "clientid_read": read},
 		}
 		if n >= defaultClientIDCacheCount {
 			c.Classes = []string{"own-cache-window-exceeded"}
